@@ -2,13 +2,14 @@
 # Runs each seeded change against checks in a scratch worktree (never touches /repo's working tree or /verif/evidence).
 # usage: tools/matrix.sh [own|all]  -> writes /verif/seeded/matrix.tsv and fills detected_by in meta.json
 MODE=${1:-own}
+PAT=${2:-^C}   # optional regexp limiting the seeded changes; when given, results are appended
 WT=/tmp/matrix-wt
 OUT=/tmp/matrix-out
 git -C /repo worktree remove --force $WT 2>/dev/null
 git -C /repo worktree add -q --detach $WT HEAD || exit 1
 mkdir -p $OUT
-: > /verif/seeded/matrix.tsv
-for S in $(ls /verif/seeded | grep '^C'); do
+if [ -z "$2" ]; then : > /verif/seeded/matrix.tsv; fi
+for S in $(ls /verif/seeded | grep '^C' | grep -E "$PAT"); do
   P=${S%%-*}
   git -C $WT checkout -q -- . ; git -C $WT clean -fdq
   git -C $WT apply /verif/seeded/$S/patch.diff || { echo "$S patch failed"; continue; }
@@ -28,8 +29,11 @@ rm -rf $OUT
 python3 - <<'PY'
 import json,collections,os
 det=collections.defaultdict(list)
+last={}
 for l in open('/verif/seeded/matrix.tsv'):
     s,c,rc,first=l.rstrip('\n').split('\t')
+    last[(s,c)]=rc          # a later run of the same pair supersedes an earlier one
+for (s,c),rc in last.items():
     if rc=='1': det[s].append(c)
 for s in os.listdir('/verif/seeded'):
     p='/verif/seeded/%s/meta.json'%s
